@@ -27,6 +27,7 @@ func checkC12(r *Report, p *Program) {
 	failedResultNotUsed(r, p, "R12.8")
 	toleranceScope(r, p, "R12.9")
 	r12_10(r, p)
+	errorChecksMeanWhatTheySay(r, p, "R12.11")
 }
 
 func allowedFor(s engine.Sink, under map[*ssa.Function]bool, releasers map[*ssa.Function]bool) []string {
